@@ -200,8 +200,8 @@ TOKENIZER = [
   ),
   F('Tokenizer::expect',
     spec=r'''    requires old(self).synced(),
-    ensures r is Ok ==> final(self).synced() && final(self).m() <= old(self).m(),
-        r is Ok && !(old(self).cur() is EOF) ==> final(self).m() < old(self).m(),
+    ensures r is Ok ==> final(self).synced() && final(self).m() <= old(self).m(),  // @C01,C02,C05 progress
+        r is Ok && !(old(self).cur() is EOF) ==> final(self).m() < old(self).m(),  // @C01,C02,C05 progress
         final(self).bytes() == old(self).bytes(),
         r is Ok ==> nxt(final(self).bytes(), old(self).cur(), final(self).cur()),
         r is Ok ==> tok_is_sep(old(self).cur(), op@),   // C05: only the expected separator is accepted''',
@@ -299,8 +299,8 @@ TOKENIZER = [
         r matches Ok(t) ==> tok_post(old(self).bytes(), old(self).off(), t, final(self).off())
              && final(self).cur() == t && final(self).prev() == old(self).cur(),
         r is Ok ==> final(self).synced(),
-        r is Ok && old(self).synced() ==> final(self).m() <= old(self).m(),
-        r is Ok && old(self).synced() && !(old(self).cur() is EOF) ==> final(self).m() < old(self).m(),
+        r is Ok && old(self).synced() ==> final(self).m() <= old(self).m(),  // @C01,C02,C05 progress
+        r is Ok && old(self).synced() && !(old(self).cur() is EOF) ==> final(self).m() < old(self).m(),  // @C01,C02,C05 progress
         final(self).bytes() == old(self).bytes(),
         r matches Ok(t) ==> t == tk(old(self).bytes(), old(self).off()),   // @C10 scanner.deterministic
         r matches Ok(t) ==> tok_class(old(self).bytes(), t),  // @C10 class.token
@@ -325,15 +325,15 @@ PARSER = [
   ),
   F('Parser::next',
     spec=r'''    requires old(self).wf(),
-    ensures r is Ok ==> final(self).wf() && final(self).bytes() == old(self).bytes() && final(self).m() <= old(self).m(),
+    ensures r is Ok ==> final(self).wf() && final(self).bytes() == old(self).bytes() && final(self).m() <= old(self).m(),  // @C01,C02,C05 progress
         r is Ok && !(old(self).cur() is EOF) ==> final(self).m() < old(self).m() && nxt(final(self).bytes(), old(self).cur(), final(self).cur()),
         r is Ok ==> final(self).cur() == tk(old(self).bytes(), tok_end(old(self).cur(), old(self).bytes().len() as int)),''',
     ops=[],
   ),
   F('Parser::expect',
     spec=r'''    requires old(self).wf(),
-    ensures r is Ok ==> final(self).wf() && final(self).bytes() == old(self).bytes() && final(self).m() <= old(self).m(),
-        r is Ok && !(old(self).cur() is EOF) ==> final(self).m() < old(self).m(),
+    ensures r is Ok ==> final(self).wf() && final(self).bytes() == old(self).bytes() && final(self).m() <= old(self).m(),  // @C01,C02,C05 progress
+        r is Ok && !(old(self).cur() is EOF) ==> final(self).m() < old(self).m(),  // @C01,C02,C05 progress
         r is Ok ==> nxt(final(self).bytes(), old(self).cur(), final(self).cur()),
         r is Ok ==> tok_is_sep(old(self).cur(), expected@),''',
     ops=[],
@@ -345,7 +345,7 @@ PARSER = [
   ),
   F('Parser::parse_token', props=['C01!', 'C02', 'C05', 'C09'],
     spec=r'''    requires old(self).wf(),
-    ensures r is Ok ==> final(self).wf() && final(self).bytes() == old(self).bytes() && final(self).m() < old(self).m(),
+    ensures r is Ok ==> final(self).wf() && final(self).bytes() == old(self).bytes() && final(self).m() < old(self).m(),  // @C01,C02,C05 progress
         r matches Ok(v) ==> (if old(self).cur() is Operator { final(self).d_prim(old(self), v) } else { final(self).d_atom(old(self), v) }),
     decreases old(self).m(), 3int,''',
     ops=[
@@ -382,7 +382,7 @@ PARSER = [
   ),
   F('Parser::parse_expression',
     spec=r'''    requires old(self).wf(),
-    ensures r is Ok ==> final(self).wf() && final(self).bytes() == old(self).bytes() && final(self).m() < old(self).m(),
+    ensures r is Ok ==> final(self).wf() && final(self).bytes() == old(self).bytes() && final(self).m() < old(self).m(),  // @C01,C02,C05 progress
         r matches Ok(v) ==> final(self).d_expr(old(self), v),
     decreases old(self).m(), 6int,''',
     ops=[
@@ -392,7 +392,7 @@ PARSER = [
   ),
   F('Parser::parse_primary',
     spec=r'''    requires old(self).wf(),
-    ensures r is Ok ==> final(self).wf() && final(self).bytes() == old(self).bytes() && final(self).m() < old(self).m(),
+    ensures r is Ok ==> final(self).wf() && final(self).bytes() == old(self).bytes() && final(self).m() < old(self).m(),  // @C01,C02,C05 progress
         r matches Ok(v) ==> final(self).d_prim(old(self), v),
     decreases old(self).m(), 4int,''',
     ops=[
@@ -408,7 +408,7 @@ PARSER = [
     attr='#[verifier::spinoff_prover]\n#[verifier::rlimit(60)]',
     spec=r'''    requires old(self).wf(), exec_prec >= 0,
         is_prim(g0), wf(g0, old(self).bytes(), old(self).cur()), ast_of(g0) == lhs,
-    ensures r is Ok ==> final(self).wf() && final(self).bytes() == old(self).bytes() && final(self).m() <= old(self).m(),
+    ensures r is Ok ==> final(self).wf() && final(self).bytes() == old(self).bytes() && final(self).m() <= old(self).m(),  // @C01,C02,C05 progress
         r matches Ok(v) ==> exists|g: G<'a>| first(g) == first(g0) && #[trigger] wf(g, final(self).bytes(), final(self).cur()) && ast_of(g) == v
             && lspine(g, exec_prec as int) && !(g is Entry)
             && (exec_prec > 0 ==> (tok_is(final(self).cur(), "?"@)
@@ -454,14 +454,14 @@ PARSER = [
   ),
   F('Parser::parse_delim',
     spec=r'''    requires old(self).wf(), old(self).cur() matches Token::Delim(d, _) && d == ty,
-    ensures r is Ok ==> final(self).wf() && final(self).bytes() == old(self).bytes() && final(self).m() < old(self).m(),
+    ensures r is Ok ==> final(self).wf() && final(self).bytes() == old(self).bytes() && final(self).m() < old(self).m(),  // @C01,C02,C05 progress
         r matches Ok(v) ==> final(self).d_atom(old(self), v),
     decreases old(self).m(), 2int,''',
     ops=[],
   ),
   F('Parser::parse_open_paren',
     spec=r'''    requires old(self).wf(), tok_is(old(self).cur(), "("@),
-    ensures r is Ok ==> final(self).wf() && final(self).bytes() == old(self).bytes() && final(self).m() < old(self).m(),
+    ensures r is Ok ==> final(self).wf() && final(self).bytes() == old(self).bytes() && final(self).m() < old(self).m(),  // @C01,C02,C05 progress
         r matches Ok(v) ==> final(self).d_atom(old(self), v),
     decreases old(self).m(), 1int,''',
     ops=[
@@ -473,7 +473,7 @@ PARSER = [
   ),
   F('Parser::parse_open_bracket',
     spec=r'''    requires old(self).wf(), tok_is(old(self).cur(), "["@),
-    ensures r is Ok ==> final(self).wf() && final(self).bytes() == old(self).bytes() && final(self).m() < old(self).m(),
+    ensures r is Ok ==> final(self).wf() && final(self).bytes() == old(self).bytes() && final(self).m() < old(self).m(),  // @C01,C02,C05 progress
         r matches Ok(v) ==> final(self).d_atom(old(self), v),
     decreases old(self).m(), 1int,''',
     ops=[
@@ -503,7 +503,7 @@ PARSER = [
   ),
   F('Parser::parse_open_brace',
     spec=r'''    requires old(self).wf(), tok_is(old(self).cur(), "{"@),
-    ensures r is Ok ==> final(self).wf() && final(self).bytes() == old(self).bytes() && final(self).m() < old(self).m(),
+    ensures r is Ok ==> final(self).wf() && final(self).bytes() == old(self).bytes() && final(self).m() < old(self).m(),  // @C01,C02,C05 progress
         r matches Ok(v) ==> final(self).d_atom(old(self), v),
     decreases old(self).m(), 1int,''',
     ops=[
@@ -539,7 +539,7 @@ PARSER = [
   ),
   F('Parser::parse_unary',
     spec=r'''    requires old(self).wf(), old(self).cur() matches Token::Operator(s, _) && s == op,
-    ensures r is Ok ==> final(self).wf() && final(self).bytes() == old(self).bytes() && final(self).m() < old(self).m(),
+    ensures r is Ok ==> final(self).wf() && final(self).bytes() == old(self).bytes() && final(self).m() < old(self).m(),  // @C01,C02,C05 progress
         r matches Ok(v) ==> final(self).d_prim(old(self), v),
     decreases old(self).m(), 1int,''',
     ops=[
@@ -551,7 +551,7 @@ PARSER = [
   ),
   F('Parser::parse_function',
     spec=r'''    requires old(self).wf(), old(self).cur() matches Token::Function(nm, _) && nm == name,
-    ensures r is Ok ==> final(self).wf() && final(self).bytes() == old(self).bytes() && final(self).m() < old(self).m(),
+    ensures r is Ok ==> final(self).wf() && final(self).bytes() == old(self).bytes() && final(self).m() < old(self).m(),  // @C01,C02,C05 progress
         r matches Ok(v) ==> final(self).d_atom(old(self), v),
     decreases old(self).m(), 1int,''',
     ops=[
